@@ -20,6 +20,7 @@ fn main() {
     "dump" => dump::dump_cmd(&args[2..]),
     "optable" => kernels::optable(),
     "typecheck" => dump::typecheck_cmd(&args[2..]),
+    "exprloc" => dump::exprloc_cmd(&args[2..]),
     _ => {
       eprintln!("unknown subcommand");
       std::process::exit(64);
